@@ -53,6 +53,11 @@ CHECKS = {
   note="Trusted: go/ssa, the must-held lock analysis, the per-type tables in engines/c20.go. 14 unguarded index inserts (generic state store, subscriber by-IP index, truncated circuit-id key) are known findings.",
   tech="static analysis: lockset, path-sensitive finite-domain dataflow for map pairing, dominance-based guarded-insert / range / ordering rules on go/ssa",
   ref="DESIGN.md §2 C20, §1.3 E6"),
+ "C10": dict(
+  text="Structural clauses of 'CGNAT port blocks never overlap and are always attributable' on nat.Manager and nat.Logger: the block index multiplied by the block size is an index of a free-slot table found free, marked used on success and cleared by the release path, never a field that a release decrements; PortEnd = PortStart + size - 1, per-address capacity = floor(range/size) and the slot table has that many entries; the existence check and the insert form one continuous lock hold; every path that inserts/removes an allocation reaches LogAllocation/LogDeallocation (when a logger is set) with that allocation's own fields (path-sensitive dataflow); log entries copy like-named fields; flushed log buffers are detached from the live buffer. Overlap over histories beyond these causes and the semantics of log completeness are not decided.",
+  note="Trusted: go/ssa, the must-held lock analysis. Two genuine defects (slot from live counter, check-then-act) were repaired by fix: commits.",
+  tech="static analysis: value-provenance of the block index, shape rules on SSA arithmetic, lock-hold analysis, path-sensitive must-log dataflow",
+  ref="DESIGN.md §2 C10"),
 }
 NA = {}
 def main():
